@@ -58,7 +58,7 @@ RULE = ("stacks of 0..3 elements over 3 library probes, 2 block probes and 8 shi
         "the library holds a block of the target class); distinct = distinct spec")
 BOUND = {"quick": "parse/write: all 183 stacks of length <= 2 x 7 documents x 2 argument positions + 8000 random stacks of length 3 per side; "
                   "both: 4 functions x 9 stack pairs; parse_file: every (document, encoding) pair x 3 argument forms x 6 stacks; "
-                  "write_file: 7 documents x 2 targets x 3 argument forms x 3 formats x 4 stacks; iterable: 4 positions x 2 forms x 6 "
+                  "write_file: 7 documents x 2 targets x 3 argument forms x 3 formats x 4 stacks; iterable: 4 positions x 3 forms (tuple, iterator, generator) x 6 "
                   "stacks x 3 documents; block: 26 modes (among them falsy non-blocks False, 0, 0.0, objects with false __bool__ / zero __len__) x (each block kind alone, duplicate pairs, 9 target classes on the 11-block library) + 8000 random libraries",
          "thorough": "same with 60000 random stacks of length 3 per side and 60000 random block libraries"}
 
@@ -518,10 +518,8 @@ def generate(tier, rng):
     # iterable forms
     for pos in ("parse_stack", "append_middleware", "unparse_stack", "prepend_middleware"):
         for form in ("tuple", "iter", "gen"):
-            if form != "tuple" and pos in ("append_middleware", "prepend_middleware"):
-                # outside the quantifier: the addition arguments are re-iterable sequences (a one-shot iterator is
-                # consumed by the duplicate-type warning before it is used; recorded in DESIGN.md, not a C20 clause)
-                continue
+            # (one-shot iterators in the addition arguments used to be consumed by the duplicate-type warning before use:
+            #  N2, repaired in /repo; they are part of the input space since)
             for st in SOME_STACKS:
                 for d in (1, 2, 6):
                     yield "C20.iterable", {"pos": pos, "form": form, "stack": st, "doc": d}, bool(st)
